@@ -289,10 +289,27 @@ fn check(case: &Case, ev: &mut CaseEv) -> CheckResult {
     }
     // gradient against the documented formula
     let mut worst = 0.0f64;
+    let mut zone_checked = 0;
     for i in 0..n {
         let (_, _, z) = ref_elem(o, p[i], t[i], n);
         if z && o != Obj::CE {
-            continue; // (cross-entropy's documented gradient, predicted - actual, involves no clamping)
+            // (cross-entropy's documented gradient, predicted - actual, involves no clamping.) Inside the band where
+            // the library bounds the prediction to [eps, 1 - eps] the statement admits three readings of "the
+            // documented formula / the derivative of the reported loss": the formula at the bounded prediction
+            // (what the library does), the formula at the raw prediction where that is finite, and - strictly
+            // outside [eps, 1 - eps], where the reported loss does not depend on the prediction - zero. A
+            // component that is none of the three is wrong under every reading.
+            let (pd, td) = (p[i] as f64, t[i] as f64);
+            let raw = if o == Obj::BCE { (pd - td) / (pd * (1.0 - pd)) } else { -td / pd };
+            let near = |r: f64| r.is_finite() && (g[i] as f64 - r).abs() <= 2e-5 * r.abs() + 1e-7;
+            let outside = pd < EPS as f64 || pd > (1.0f32 - EPS) as f64;
+            ensure!(
+                near(rg[i]) || near(raw) || (outside && g[i] == 0.0),
+                "{:?} rank {}: gradient[{}] = {:e} at the saturated prediction p = {:e} (t = {:e}) is neither the documented formula at the eps-bounded prediction ({:e}), nor at the raw prediction ({:e}), nor the derivative 0 of the (there constant) reported loss",
+                o, case.dims.len(), i, g[i], p[i], t[i], rg[i], raw
+            );
+            zone_checked += 1;
+            continue;
         }
         let tol = 2e-5 * rg[i].abs() + 1e-7 * if is_prob(o) { 1.0 } else { (p[i].abs().max(t[i].abs()) as f64).max(1e-3) / n as f64 };
         let err = (g[i] as f64 - rg[i]).abs();
@@ -300,6 +317,9 @@ fn check(case: &Case, ev: &mut CaseEv) -> CheckResult {
         ensure!(err <= tol, "{:?} rank {}: gradient[{}] = {:e}, documented formula gives {:e} (p = {:e}, t = {:e}, n = {})", o, case.dims.len(), i, g[i], rg[i], p[i], t[i], n);
     }
     ev.ratio("gradient", worst);
+    if zone_checked > 0 {
+        ev.class("gradient checked at saturated predictions (three admissible readings)");
+    }
 
     // gradient is the derivative of the reported loss (AE, MSE, BCE, KL), interior points only
     if matches!(o, Obj::AE | Obj::MSE | Obj::BCE | Obj::KL) {
@@ -373,7 +393,7 @@ impl Prop for C06 {
         t.pick(1_000_000, 100_000_000)
     }
     fn rule(&self) -> String {
-        "tape-decoded (objective of 7, clamp in {none, [-1,1], lo=hi, positive interval excluding 0, negative interval excluding 0, wide, (-inf, x], [x, +inf), (-inf, +inf)}, rank: vector 1..16 (1/6: 17..130) or c x h x w <= 3x3x3 (1/6: up to 4x6x6), content class: interior / one-hot targets / boundaries (exact 0, 1, eps, 1-eps, eps +- 2 ulp, denormals, 1e-7 multiples) / p == t / mixed for the probability objectives; O(1), |v| <= 1e4, equal-or-1-ulp-apart, dyadic, mixed magnitudes, zeros of either sign and subnormals (numerically equal pairs with different bits), magnitudes 1e15 ... 9e18 (squares near the top of the range) for the regression objectives). Oracle: documented formulas in f64, finiteness, numerical derivative of the reference loss (AE, MSE, BCE, KL), 3-D == flat bitwise, clamped == clamp(unclamped) bitwise. Non-trivial: >= 2 elements and (a boundary/equal element, or a clamp active on some and inactive on other components, or rank 3). Distinct = (objective, shape, clamp bits, content class, boundary flag, seed mod 64).".into()
+        "tape-decoded (objective of 7, clamp in {none, [-1,1], lo=hi, positive interval excluding 0, negative interval excluding 0, wide, (-inf, x], [x, +inf), (-inf, +inf)}, rank: vector 1..16 (1/6: 17..130) or c x h x w <= 3x3x3 (1/6: up to 4x6x6), content class: interior / one-hot targets / boundaries (exact 0, 1, eps, 1-eps, eps +- 2 ulp, denormals, 1e-7 multiples) / p == t / mixed for the probability objectives; O(1), |v| <= 1e4, equal-or-1-ulp-apart, dyadic, mixed magnitudes, zeros of either sign and subnormals (numerically equal pairs with different bits), magnitudes 1e15 ... 9e18 (squares near the top of the range) for the regression objectives). Oracle: documented formulas in f64 (for binary cross-entropy and KL-divergence at predictions closer than 2e-6 to 0 or 1: the gradient must be the formula at the eps-bounded prediction, or at the raw prediction where finite, or - outside [eps, 1 - eps] - the derivative 0 of the there constant reported loss; anything else is wrong under every reading), finiteness, numerical derivative of the reference loss (AE, MSE, BCE, KL), 3-D == flat bitwise, clamped == clamp(unclamped) bitwise. Non-trivial: >= 2 elements and (a boundary/equal element, or a clamp active on some and inactive on other components, or rank 3). Distinct = (objective, shape, clamp bits, content class, boundary flag, seed mod 64).".into()
     }
     fn assumptions(&self) -> Vec<String> {
         vec![
